@@ -64,7 +64,13 @@ func TestVerifReplayC18(t *testing.T) {
 	n1, _ := NewNotification("note", "payload with   and é and \x00")
 	r1, _ := NewResponse(NewNumberID(1), map[string]int{"x": 1}, nil)
 	r2, _ := NewResponse(NewStringID("s"), nil, errors.New("failed ü"))
-	msgs = append(msgs, c1, c2, n1, r1, r2)
+	// ids whose string form looks like a number (and numbers that look odd) keep their form on the wire
+	c3, _ := NewCall(NewStringID("7"), "m3", nil)
+	r3, _ := NewResponse(NewStringID("-3"), "x", nil)
+	c4, _ := NewCall(NewStringID("007"), "m4", nil)
+	r4, _ := NewResponse(NewNumberID(-3), "y", nil)
+	c5, _ := NewCall(NewStringID("2147483648"), "m5", nil)
+	msgs = append(msgs, c1, c2, n1, r1, r2, c3, r3, c4, r4, c5)
 	// write: one exact frame per message, header counts bytes
 	w := &verifChunked{}
 	ws := NewStream(w)
@@ -173,7 +179,7 @@ func TestVerifReplayC18(t *testing.T) {
 		fmt.Println("REPLAY-CONFIRMED " + msg)
 		return
 	}
-	fmt.Println("REPLAY-NOT-REPRODUCED bounded search: 5 messages x 6 chunkings, 3 cancellation points, 15 malformed frames x 3 chunkings, 4 call / reply schedules, 6 concurrent senders x 40 messages on one connection")
+	fmt.Println("REPLAY-NOT-REPRODUCED bounded search: 10 messages (string ids that look like numbers among them) x 6 chunkings, 3 cancellation points, 15 malformed frames x 3 chunkings, 4 call / reply schedules, 6 concurrent senders x 40 messages on one connection")
 }
 
 // verifWire records every transport write in wire order and yields in between, so that unsynchronised senders interleave
